@@ -238,6 +238,9 @@ class ExecMixin:
             raise OutsideSubset(f"assignment target {type(t).__name__}")
 
     def symbolic_unpack(self, st, v, t):
+        if isinstance(v, Z) and v.t.kind == "tuple":
+            srt, mk, accs = smt.tuple_sort(tuple(a.z3sort() for a in v.t.args))
+            return [Z(a, accs[i](v.e)) for i, a in enumerate(v.t.args)]
         if isinstance(v, Z) and v.t.kind == "ref" and v.t.cls:
             m = self.classes.get(v.t.cls) or {}
             if m.get("tuplelike"):
@@ -440,8 +443,9 @@ class ExecMixin:
         n, elem = self.symbolic_iter(st, it)
         q = self.current_target if len(st.frames) <= 2 else fr.module + ":" + fr.qualname
         # locals declared with a sort are converted (concrete list -> seq) before the cut
-        for nm, ts in (c.options.get(f"loop{ordinal}_locals") or {}).items():
-            if nm in fr.env:
+        declared = (c.options.get(f"loop{ordinal}_locals") or {}) if c is not None else {}
+        for nm, ts in declared.items():
+            if nm in fr.env and not ts.startswith("opt["):
                 fr.env[nm] = self.to_z(st, fr.env[nm], parse_T(ts))
 
         def inv_at(k, tag):
@@ -457,7 +461,10 @@ class ExecMixin:
         # havoc
         targets = [x for x in assigned_names(s.body) if x in fr.env]
         for nm in targets:
-            fr.env[nm] = self.havoc_value(st, fr.env[nm], nm)
+            if nm in declared and declared[nm].startswith("opt["):
+                fr.env[nm] = self.fresh_of(st, parse_T(declared[nm]), nm)
+            else:
+                fr.env[nm] = self.havoc_value(st, fr.env[nm], nm)
         mods = spec.modifies or (c.modifies if c is not None else [])
         for mexpr in mods:
             self.havoc_location(st, mexpr, fr)
@@ -491,8 +498,10 @@ class ExecMixin:
             return Z(v.t, st.fresh(name, v.e.sort()))
         if isinstance(v, Arr):
             return Arr(st.fresh(name + "_a", z3.ArraySort(Int, Int)), st.fresh(name + "_n", Int))
-        if v is NONE or isinstance(v, (Func, ClassVal, Builtin, ModuleVal)):
+        if isinstance(v, (Func, ClassVal, Builtin, ModuleVal)):
             return v
+        if v is NONE:
+            raise OutsideSubset(f"loop-carried local `{name}` is None before the loop: declare its sort in the loop spec (loopN_locals)")
         if isinstance(v, Opaque):
             return Opaque(v.tag + "'")
         if isinstance(v, PyTuple):
